@@ -29,16 +29,25 @@ pub struct Case {
 pub fn gen_scenario(rng: &mut Rng, with_eval: bool) -> Scenario {
     let opts = GenOpts::swarm(rng);
     let net = gen_net(rng, &opts);
-    let n = match rng.below(6) {
+    // mostly small sets; one in eight is large enough that different split trees of the
+    // parallel batch map contain leaves of three or more samples
+    let n = match rng.below(8) {
         0 => 1,
         1 => rng.range(2, 4),
+        2 => rng.range(17, 48),
         _ => rng.range(2, 12),
     };
     let batch = match rng.below(6) {
         0 => 1,
         1 => n + rng.range(1, 2),
         2 => n,
-        _ => rng.range(1, n + 1),
+        _ => {
+            if n >= 17 {
+                rng.range(17, n)
+            } else {
+                rng.range(1, n + 1)
+            }
+        }
     };
     let epochs = rng.range(1, 3) as i32;
     let train = gen_data(rng, &net, n);
@@ -71,6 +80,7 @@ pub fn gen_scenario(rng: &mut Rng, with_eval: bool) -> Scenario {
         acc_tol: rng.pick(&[1e-6f32, 1e-3, 1e-1, 0.5]),
         pred,
         init_params: None,
+        print: if rng.chance(0.3) { Some(rng.pick(&[1i32, 2, 3, 5, 50])) } else { None },
     }
 }
 
@@ -141,6 +151,8 @@ impl Property for C05 {
             "layer_feedback",
             "skip_connection",
             "loop_connection",
+            "batch_ge_17",
+            "print_some",
         ]
     }
 
